@@ -11,6 +11,7 @@ W0 == [k |-> "w", path |-> "", whole |-> TRUE, beg |-> 0, end |-> 0, force |-> T
 Cmds(s) ==
     LET n == Len(Cur(s).lb.lines) IN
     {[k |-> "e", path |-> p, force |-> f] : p \in Paths \cup {""}, f \in BOOLEAN} \cup
+    {[k |-> "e", path |-> p, force |-> FALSE, ew |-> TRUE] : p \in Paths} \cup
     {[k |-> "w", path |-> p, whole |-> TRUE, beg |-> 0, end |-> 0, force |-> f, fault |-> ft] :
         p \in Paths \cup {""}, f \in BOOLEAN, ft \in {"", "open", "io"}} \cup
     {[k |-> "w", path |-> "", whole |-> FALSE, beg |-> 0, end |-> 1, force |-> FALSE, fault |-> ""] : x \in {y \in {1} : n >= 2}} \cup
